@@ -12,6 +12,7 @@ import (
 	"math"
 	"reflect"
 	"strings"
+	"unsafe"
 
 	"gorgonia.org/tensor"
 )
@@ -158,8 +159,49 @@ func init() {
 		}
 		return fmt.Sprintf("E=ok D=ok dt=%s %s %s", dtName(d.Dtype()), serObs("D", d), serObs("S", src))
 	}
+	// serx <ptr|uptr> <fmt> <shape> : the two element types outside the token scheme (unsafe.Pointer,
+	// uintptr).  Observation: E= D= dt=<decoded type> same=<1 iff type, shape and elements are equal>
+	execs["serx"] = func(a []string) string {
+		sh := ints(a[2])
+		n := prod(sh)
+		var src *tensor.Dense
+		switch a[0] {
+		case "ptr":
+			b := make([]unsafe.Pointer, n)
+			for i := range b {
+				b[i] = unsafe.Pointer(&ptrPool[i%len(ptrPool)])
+			}
+			src = tensor.New(tensor.WithShape(sh...), tensor.WithBacking(b))
+		case "uptr":
+			b := make([]uintptr, n)
+			for i := range b {
+				b[i] = uintptr(1000 + i)
+			}
+			src = tensor.New(tensor.WithShape(sh...), tensor.WithBacking(b))
+		default:
+			panic("serx dtype")
+		}
+		b, est := encode(a[1], src)
+		if est != "ok" {
+			return fmt.Sprintf("E=%s D=- dt=- same=-", est)
+		}
+		d, dst := decode(a[1], src.Dtype(), b)
+		if dst != "ok" {
+			return fmt.Sprintf("E=ok D=%s dt=- same=-", dst)
+		}
+		same := 0
+		func() {
+			defer func() { recover() }()
+			if d.Dtype() == src.Dtype() && d.Shape().Eq(src.Shape()) && reflect.DeepEqual(d.Data(), src.Data()) {
+				same = 1
+			}
+		}()
+		return fmt.Sprintf("E=ok D=ok dt=%s same=%d", d.Dtype().String(), same)
+	}
 	gens["C14"] = genC14
 }
+
+var ptrPool [64]byte
 
 var serFormats = []string{"gob", "npy", "csv", "pb", "fb"}
 
@@ -171,6 +213,22 @@ func genC14(tier string, r *rng, emit func(string)) {
 	for _, dt := range dtypeNames {
 		for _, f := range serFormats {
 			emit(fmt.Sprintf("serv %s %s", dt, f))
+		}
+	}
+	for _, dt := range []string{"ptr", "uptr"} {
+		for _, f := range serFormats {
+			for _, sh := range []string{"2,3", "4", "_"} {
+				emit(fmt.Sprintf("serx %s %s %s", dt, f, sh))
+			}
+		}
+	}
+	// every element type x every format x the basic layouts, systematically
+	for _, dt := range dtypeNames {
+		for _, f := range serFormats {
+			for _, la := range []string{"rm", "cm", "T", "slice"} {
+				p, idx := source(r, la, []int{2, 3}, 1)
+				emit(fmt.Sprintf("ser %s %s %d - %s", safeDt(dt, p), f, idx, p))
+			}
 		}
 	}
 	lay := []string{"rm", "rm", "cm", "cmb", "T", "slice", "stepslice", "cloneview", "mat"}
